@@ -953,6 +953,136 @@ func extractSites() {
 		}
 	}
 	set("lock_iter_callbacks", uniq(nested))
+
+	// functions that open a store iterator, directly or through same-package callees
+	lockFiles := []string{fAbci, fBatch, fPool, fKeeper, fVote, fQuery, fMsg, fHandler, "module/x/mhub2/keeper/tx_status.go", "module/x/mhub2/keeper/tx_fee_record.go", "module/x/mhub2/keeper/hooks.go", fKGen}
+	calls := map[string]map[string]bool{}
+	opens := map[string]bool{}
+	bodies := map[string]*ast.FuncDecl{}
+	for _, rel := range lockFiles {
+		f := parse(rel)
+		if f == nil {
+			continue
+		}
+		for _, decl := range f.Decls {
+			fd, ok := decl.(*ast.FuncDecl)
+			if !ok || fd.Body == nil {
+				continue
+			}
+			name := fd.Name.Name
+			bodies[name] = fd
+			calls[name] = map[string]bool{}
+			ast.Inspect(fd.Body, func(y ast.Node) bool {
+				c2, ok := y.(*ast.CallExpr)
+				if !ok {
+					return true
+				}
+				fs := src(c2.Fun)
+				if strings.HasSuffix(fs, ".Iterator") || strings.HasSuffix(fs, ".ReverseIterator") || strings.Contains(fs, "FilteredPaginate") {
+					opens[name] = true
+				}
+				if i := strings.LastIndex(fs, "."); i >= 0 {
+					calls[name][fs[i+1:]] = true
+				} else {
+					calls[name][fs] = true
+				}
+				return true
+			})
+		}
+	}
+	for changed := true; changed; {
+		changed = false
+		for n, cs := range calls {
+			if opens[n] {
+				continue
+			}
+			for c := range cs {
+				if opens[c] && bodies[c] != nil {
+					opens[n] = true
+					changed = true
+				}
+			}
+		}
+	}
+	var openers []string
+	for n := range opens {
+		openers = append(openers, n)
+	}
+	set("lock_iterator_openers", uniq(openers))
+	// iterator callbacks that (transitively) open another iterator
+	var bad []string
+	for _, rel := range lockFiles {
+		f := parse(rel)
+		if f == nil {
+			continue
+		}
+		for _, decl := range f.Decls {
+			fd, ok := decl.(*ast.FuncDecl)
+			if !ok || fd.Body == nil {
+				continue
+			}
+			ast.Inspect(fd.Body, func(x ast.Node) bool {
+				ce, ok := x.(*ast.CallExpr)
+				if !ok {
+					return true
+				}
+				fs := src(ce.Fun)
+				callee := fs
+				if i := strings.LastIndex(fs, "."); i >= 0 {
+					callee = fs[i+1:]
+				}
+				if !opens[callee] {
+					return true
+				}
+				for _, a := range ce.Args {
+					fl, ok := a.(*ast.FuncLit)
+					if !ok {
+						continue
+					}
+					ast.Inspect(fl.Body, func(y ast.Node) bool {
+						if c2, ok := y.(*ast.CallExpr); ok {
+							s2 := src(c2.Fun)
+							in := s2
+							if i := strings.LastIndex(s2, "."); i >= 0 {
+								in = s2[i+1:]
+							}
+							if opens[in] && bodies[in] != nil {
+								bad = append(bad, fmt.Sprintf("%s:%s->%s", filepath.Base(rel), fd.Name.Name, in))
+							}
+						}
+						return true
+					})
+				}
+				return true
+			})
+		}
+	}
+	set("lock_nested_iterators", uniq(bad))
+	// explicit iterator loops (for ; iter.Valid(); iter.Next()) whose body opens an iterator
+	var badLoops []string
+	for name, fd := range bodies {
+		ast.Inspect(fd.Body, func(x ast.Node) bool {
+			fs, ok := x.(*ast.ForStmt)
+			if !ok || fs.Cond == nil || !strings.Contains(src(fs.Cond), ".Valid()") {
+				return true
+			}
+			ast.Inspect(fs.Body, func(y ast.Node) bool {
+				if c2, ok := y.(*ast.CallExpr); ok {
+					s2 := src(c2.Fun)
+					in := s2
+					if i := strings.LastIndex(s2, "."); i >= 0 {
+						in = s2[i+1:]
+					}
+					if opens[in] && bodies[in] != nil {
+						badLoops = append(badLoops, name+"->"+in)
+					}
+				}
+				return true
+			})
+			return true
+		})
+	}
+	set("lock_nested_iterator_loops", uniq(badLoops))
 }
 
 // derived emits interpreted definitions used as parameters of the model.
